@@ -133,6 +133,7 @@ def run(ctx):
                 good = a[0] == ("arg", 1) and mentions(a[1], lambda s: is_call(s, name="verifying_key") and s[2][0] == ("arg", 3))
             ctx.check(good, "PROV", cp.key, "proof-made-for-own-identifier-and-commitment",
                       "the proof of knowledge is not computed for (own identifier, own commitment)", cp.loc)
+    pok_kernel(ctx)
     p3 = ctx.anchor(DKG + "part3")
     if p3:
         v = FnView.get(P, p3)
@@ -204,3 +205,37 @@ def run(ctx):
                       "a failing round-two share must be reported as InvalidSecretShare{culprit: Some(the sender of "
                       "that share)}; other errors are forwarded unchanged", p3.loc)
         reductions(ctx, p3.key, adaptors={}, min_loops=1)
+
+
+def pok_kernel(ctx):
+    """prover: (R, mu) = (G*k, k + a0*c); verifier: R == G*mu - phi0*c with phi0 = G*a0 — must be an identity"""
+    from .. import algebra
+    from ..algebra import Alg, Unanalysable, show, eadd
+    from .c01 import eq_sides, f0
+    P = ctx.prog
+    cp, vp = P.fns.get(DKG + "compute_proof_of_knowledge"), P.fns.get(DKG + "verify_proof_of_knowledge")
+    if not (cp and vp):
+        return
+    vc, vv = FnView.get(P, cp), FnView.get(P, vp)
+    oks = [vc.cx.operand(rv["ops"][0]) for (b, k, rv) in ret_writes(cp) if k == "ok"]
+    sides = eq_sides(vp, vv)
+    if len(oks) != 1 or not sides:
+        ctx.violation("H", vp.key, "pok-kernel:shape", "proof construction / verification equation not found", vp.loc)
+        return
+    nonce = lambda i: (lambda x: x[0] == "field" and x[3] == str(i) and is_call(x[1], name="generate_nonce"))
+    chal = lambda x: x[0] == "field" and x[3] == "0" and x[1][0] == "ok" and is_call(x[1][1], name="challenge")
+    try:
+        ap = Alg([(nonce(0), ("scal", "k")), (nonce(1), ("elem", "Rk")), (chal, ("scal", "c")),
+                  (lambda x: x[0] == "some" and is_call(x[1], name="first") and x[1][2][0] == ("arg", 2), ("scal", "a0"))])
+        mu, R = ap.val(get_field(oks[0], "z")), ap.val(get_field(oks[0], "R"))
+        av = Alg([(f0(arg(3), "z"), ("scal", "mu")), (f0(arg(3), "R"), ("elem", "R")), (chal, ("scal", "c")),
+                  (lambda x: strip_newtype_fields(x)[0] == "ok" and is_call(strip_newtype_fields(x)[1], name="verifying_key"), ("elem", "phi0"))])
+        a, b = av.val(sides[0]), av.val(sides[1])
+        diff = eadd(a[1], b[1], -1)
+        env = {"mu": mu, "R": R, "Rk": ("elem", {"G": algebra.sym("k")}), "phi0": ("elem", {"G": algebra.sym("a0")})}
+        r = algebra.esubst(algebra.esubst(diff, env), env)
+        ctx.check(not r, "AGREE", vp.key, "honest-proof-satisfies-verification",
+                  "the prover's (R, mu) = (%s, %s) does not satisfy the verifier's equation %s == %s: residue %s"
+                  % (show(R), show(mu), show(a), show(b), show(("elem", r))), vp.loc, {"mu": show(mu)})
+    except Unanalysable as e:
+        ctx.violation("H", vp.key, "pok-kernel:unanalysable", str(e), vp.loc)
